@@ -108,6 +108,19 @@ def drive_c11(ctx):
     ints = [x for i, x in enumerate(c11_ints(ctx)) if mine(ctx, i)]
     extra = [rng.randint(-(1 << 64), 1 << 64) for _ in range(300 if ctx.quick else 3000)]
     extra += [rng.randint(-(1 << 33), 1 << 33) for _ in range(300 if ctx.quick else 3000)]
+    if ctx.shard in (0, 1):
+        # an integer right after a number that compares EQUAL to it but is not an integer (7.0, Decimal(7), True) and the
+        # other way round, in both modes, alone and as siblings: the ladder is about integers whatever was encoded before
+        import decimal as _d11
+        for mode in ('false', 'true'):
+            rec.add('Toggle', P, **actions.toggle(mode))
+            for n_ in (0, 1, 7, 127, 128, 300, 40000, 65535, 65536, 3000000000, -1, -129, -40000):
+                others = [float(n_), _d11.Decimal(n_)] + ([bool(n_)] if n_ in (0, 1) else [])
+                for o_ in (others if ctx.shard == 0 else others[::-1]):
+                    rec.add('EncodeValue', P, nt=True, label='equal-number-first', **actions.encode_value(o_, 'top'))
+                    rec.add('EncodeValue', P, nt=True, label='equal-number-first', **actions.encode_value(n_, 'top'))
+                    rec.add('EncodeValue', P, nt=True, label='equal-number-first', **actions.encode_value({'a': o_, 'b': n_, 'c': [n_, o_, n_]}, 'table'))
+        rec.add('Toggle', P, **actions.toggle('false'))
     for mode in ('false', 'true', 'noarg', 'false'):
         rec.add('Toggle', P, **actions.toggle(mode))
         for x in ints + extra:
@@ -308,6 +321,13 @@ def drive_c18(ctx):
             if raw:
                 rec.add('BuildFrame', P, nt=True, **actions.build_frame('ContentBody', raw))
         marshal_failure_then(ctx, P, kinds='other')
+    if ctx.shard == 2:
+        from pamqp import frame as _f18
+        firsts = [_f18.marshal(header.ProtocolHeader(0, 9, 1), 0), _f18.marshal(header.ProtocolHeader(1, 0, 0), 0), _f18.marshal(heartbeat.Heartbeat(), 0),
+                  _f18.marshal(body.ContentBody(b'abc'), 7), _f18.marshal(body.ContentBody(b'AMQP\x00\x00\x09\x01'), 65535)]
+        for b1 in firsts:
+            for t_ in [b'\x00', b'\xce', b'AMQP', b'x' * 9] + firsts:
+                rec.add('Unmarshal', P, nt=True, label='followed-by-more', **actions.unmarshal(b1 + t_))
     lens = list(range(1, 65)) + [4088, 4089, 4095, 4096, 4097, 4104, 65535, 65536]
     if not ctx.quick:
         lens += [131064, 131071, 131072] + [rng.randint(65, 20000) for _ in range(40)]
@@ -564,6 +584,23 @@ def drive_c14(ctx):
             actions.unmarshal3(b)
         except Exception:  # noqa
             pass
+    # ordinary application use of a class hierarchy: subclasses of the command classes (plain, with extra attributes, with
+    # their own name / replies) and of Basic.Properties are defined and used; the catalogue still maps every index to the
+    # specification's class
+    for _k, _c in list(commands.INDEX_MAPPING.items()):
+        if not isinstance(_c, type):
+            continue
+        try:
+            sub1 = type('App' + _c.__name__, (_c,), {'__slots__': []})
+            sub2 = type('Audited' + _c.__name__, (_c,), {'__slots__': [], 'name': 'App.' + _c.__name__, 'valid_responses': ['App.Reply'], 'synchronous': True})
+            sub1()
+            sub2()
+        except Exception:  # noqa
+            pass
+    try:
+        type('AppProperties', (commands.Basic.Properties,), {'__slots__': []})()
+    except Exception:  # noqa
+        pass
     items2 = list(commands.INDEX_MAPPING.items())
     rec.add('MappingKeys', P, nt=True, second_pass=True, keys=sorted(as_int(k) for k, _ in items2), n=len(items2))
     for key, cls in items2:
@@ -651,6 +688,27 @@ def drive_c17(ctx):
         if exceptions.CLASS_MAPPING.get(code) is not None:
             get_ok.append(code)
     rec.add('UndefinedCodes', P, nt=True, subscript_ok=sub_ok, contains=cont, get_ok=get_ok, other_exc=other)
+    # one code after another by FRESH integer objects (as read from a decoded Close frame), every ordered pair of specified
+    # codes: each lookup answers for its own code
+    codes_ = [k for k, _ in items if isinstance(k, int)]
+    for a_ in codes_:
+        for b_ in codes_:
+            if a_ == b_:
+                continue
+            got_ = []
+            for c_ in (a_, b_):
+                try:
+                    cl_ = exceptions.CLASS_MAPPING[int(str(c_))]
+                    got_.append((c_, cl_))
+                except Exception:  # noqa
+                    got_.append((c_, None))
+            c_, cl_ = got_[1]
+            if cl_ is None or getattr(cl_, 'value', None) != c_:
+                rec.add('ReplyCode', P, nt=True, via='lookup after %d' % a_, key=as_int(c_), value=as_int(getattr(cl_, 'value', None)),
+                        name=str(getattr(cl_, 'name', '<missing>')), cls=str(getattr(cl_, '__name__', repr(cl_))),
+                        soft=(isinstance(cl_, type) and issubclass(cl_, exceptions.AMQPSoftError)), hard=(isinstance(cl_, type) and issubclass(cl_, exceptions.AMQPHardError)),
+                        amqp=(isinstance(cl_, type) and issubclass(cl_, exceptions.AMQPError)), base=(isinstance(cl_, type) and issubclass(cl_, exceptions.PAMQPException)),
+                        is_exc=(isinstance(cl_, type) and issubclass(cl_, Exception)))
     # keys that are not integers (a code read from text, a Decimal, bytes, a float, None): whatever the answer, the table
     # read afterwards is still the specification's
     import decimal as _d17
@@ -915,6 +973,11 @@ def drive_c19(ctx):
             try:
                 g = actions.unmarshal3(frame.marshal(framegen.rand_method(rng, sm), 1))[2]
                 rec.add('Observe', P, nt=True, stage='decoded', **actions.observe(g))
+                # ... and a decoded frame is an object like any other: every argument re-assigned, then observed again
+                for a, ty, d in args:
+                    setattr(g, a, framegen.valid_arg(rng, '-', '-', ty))
+                if args:
+                    rec.add('Observe', P, nt=True, stage='decoded-then-setattr', **actions.observe(g))
             except Exception:  # noqa
                 pass
         if mine(ctx, rep):
@@ -924,6 +987,10 @@ def drive_c19(ctx):
             rec.add('Observe', P, nt=True, stage='after-setattr', **actions.observe(h.properties))
             g = actions.unmarshal3(frame.marshal(framegen.rand_header(rng), 1))[2]
             rec.add('Observe', P, nt=True, stage='decoded', **actions.observe(g.properties))
+            g.properties.priority = rng.randint(0, 9)
+            g.properties.content_type = 'changed/after-decode'
+            g.properties.headers = {'new': 1}
+            rec.add('Observe', P, nt=True, stage='decoded-then-setattr', **actions.observe(g.properties))
             rec.add('Observe', P, nt=True, stage='default', **actions.observe(commands.Basic.Properties()))
             # values a "helpful" accessor might normalise: sub-second and aware timestamps, struct_time, strings with a
             # signature mark or surrounding blanks, non-minimal containers
@@ -963,8 +1030,28 @@ def c13_values(rng, cls, arg, ty):
     return []
 
 
+def warm_all_classes(ctx):
+    """every one of the 64 classes constructed and marshalled once, in an order of this shard's own (forward, backward,
+    by short name, shuffled): what one class leaves behind for another of the same short name, id or position"""
+    from pamqp import frame as _fw
+    order = list(framegen.METHODS)
+    m_ = ctx.shard % 4
+    if m_ == 1:
+        order.reverse()
+    elif m_ == 2:
+        order.sort(key=lambda sm: (sm[0].split('.')[1], sm[0]))
+    elif m_ == 3:
+        ctx.rng.shuffle(order)
+    for sm in order:
+        try:
+            _fw.marshal(framegen.rand_method(ctx.rng, sm), 1)
+        except Exception:  # noqa
+            pass
+
+
 @driver('C13')
 def drive_c13(ctx):
+    warm_all_classes(ctx)
     import struct
     import wiregen
     rec, rng = ctx.rec, ctx.rng
@@ -1634,6 +1721,8 @@ def drive_c12(ctx):
         marshal_failure_then(ctx, P)
     if ctx.shard == 8:
         reentrant_callbacks(ctx, P)
+    if ctx.shard == 9:
+        ambient_decimal_context(ctx, P)
 
 
 # ---------------------------------------------------------------------------
